@@ -5,7 +5,7 @@
 DIR=$1; P=${DIR:0:3}; M=$2; shift 2; CHECKS=${@:-$P}
 W=${HW:-/tmp/wt/scratch}; SRC=/tmp/wt/$DIR/mutants; TMPD=$W.tmp; mkdir -p $TMPD
 cd $W || exit 2
-git checkout -q -- . ; git clean -qfd -e src/quantity/version.py >/dev/null
+git reset --hard -q; git clean -qfd -e src/quantity/version.py >/dev/null
 log() { echo "[$P-$M] $*"; }
 if ! git apply --check $SRC/$M.diff 2>/dev/null; then
   if ! git apply --check -3 $SRC/$M.diff 2>/dev/null; then log "PATCH-DOES-NOT-APPLY"; exit 3; fi
@@ -39,4 +39,4 @@ if [ $ok -eq 1 ]; then
 else
   log "NOT-CONFIRMED"
 fi
-git checkout -q -- .
+git reset --hard -q
